@@ -37,8 +37,9 @@ VARIABLES cnt,     \* stream key -> frames of that stream in the log (truth)
           creq,    \* task streams with a recorded cancel request
           cached,  \* stream id -> lines in its full sidecar
           recd,    \* <<stream, seq>> recorded in an emitter's late-join buffer
+          execs,   \* workspace-mutating executions in progress (tool call ids, task ids)
           bad      \* violated guards: <<position, name>>
-mvars == <<cnt, msgs, run, sess, job, task, creq, cached, recd, bad>>
+mvars == <<cnt, msgs, run, sess, job, task, creq, cached, recd, execs, bad>>
 
 Get(f, k, d) == IF k \in DOMAIN f THEN f[k] ELSE d
 Put(f, k, v) == [x \in DOMAIN f \cup {k} |-> IF x = k THEN v ELSE f[x]]
@@ -46,7 +47,7 @@ Empty == [x \in {} |-> "none"]
 Zero == [x \in {} |-> 0]
 
 MInit == /\ cnt = Zero /\ msgs = Empty /\ run = Empty /\ sess = Empty /\ job = Empty /\ task = Empty
-         /\ creq = {} /\ cached = Zero /\ recd = {} /\ bad = {}
+         /\ creq = {} /\ cached = Zero /\ recd = {} /\ execs = {} /\ bad = {}
 
 Rank == [none |-> 0, spawned |-> 1, selected |-> 2, compiled |-> 3, effects |-> 4, cursor |-> 5, ended |-> 6]
 Flags(pos, fs) == bad' = bad \cup {<<pos, f[2]>> : f \in {g \in fs : ~g[1]}}
@@ -66,8 +67,8 @@ StageName(stage) == CASE stage = "selected" -> "SelectionOnceAfterSpawn"
 StageOf(t) == CASE t = "sel" -> "selected" [] t = "comp" -> "compiled" [] t = "fx" -> "effects" [] t = "cur" -> "cursor"
 
 \* ------------------------------------------------------------------ one frame whose line reached the log
-\* f = [sk, s, seq, t, r, m, j, st]: stream kind, stream id, seq, frame type (short), run id,
-\* message id, job id, task status ("" where a field does not apply).
+\* f = [sk, s, seq, t, r, m, j, st, tid]: stream kind, stream id, seq, frame type (short), run id,
+\* message id, job id, task status, tool call id ("" where a field does not apply).
 Frame(f, pos) ==
   LET k == Key(f)
       n == Get(cnt, k, 0)
@@ -90,7 +91,8 @@ Frame(f, pos) ==
         ELSE IF f.t = "msg" THEN {<<f.m \notin DOMAIN msgs, "MessageIdFresh">>}
         ELSE IF f.t = "rs" THEN {<<IF Strict THEN Get(msgs, f.m, "none") = "posted" ELSE Get(msgs, f.m, "none") # "spawned", "OneRunSpawnedPerMessage">>,
                                  <<cur = "none", "RunSpawnedOnce">>}
-        ELSE IF f.t \in {"sel", "comp", "fx", "cur"} /\ r # "" THEN {<<StageOk(cur, StageOf(f.t)), StageName(StageOf(f.t))>>}
+        ELSE IF f.t \in {"sel", "comp", "fx", "cur"} /\ r # "" THEN {<<StageOk(cur, StageOf(f.t)), StageName(StageOf(f.t))>>,
+                                                                     <<f.t = "fx" => f.tid \notin execs, "SideEffectsAfterTheToolFinished">>}
         ELSE IF f.t = "re" THEN {<<IF Strict THEN cur \in {"spawned", "selected", "compiled", "effects", "cursor"} ELSE cur # "ended", "RunEndedOnceAfterSpawn">>,
                                  <<IF Strict THEN Get(sess, r, "none") = "ended" ELSE Get(sess, r, "none") # "open", "RunEndedFollowsItsSessionEnded">>}
         ELSE IF f.t = "js" THEN {<<Get(job, f.j, "none") = "none", "JobSpawnedOnce">>}
@@ -112,37 +114,41 @@ Frame(f, pos) ==
                 ELSE IF f.t = "tstatus" /\ f.st = "running" THEN Put(task, f.s, IF Get(task, f.s, "none") = "terminal" THEN "terminal" ELSE "running")
                 ELSE Put(task, f.s, IF Get(task, f.s, "none") \in {"none"} THEN "spawned" ELSE Get(task, f.s, "none"))
      /\ creq' = IF isT /\ f.t = "tcancelreq" THEN creq \cup {f.s} ELSE creq
-     /\ UNCHANGED <<cached, recd>>
+     /\ UNCHANGED <<cached, recd, execs>>
+
+\* a workspace-mutating execution (a tool call that needs the permit, a task's process) begins / ends
+XBegin(id, pos) == /\ Flags(pos, {<<execs = {}, "NoOverlap">>}) /\ execs' = execs \cup {id}
+                   /\ UNCHANGED <<cnt, msgs, run, sess, job, task, creq, cached, recd>>
+XEnd(id, pos) == /\ execs' = execs \ {id} /\ UNCHANGED <<cnt, msgs, run, sess, job, task, creq, cached, recd, bad>>
 
 \* a line of frame seq q of continuity stream s reached the full sidecar: the truth log has it already,
 \* and the sidecar grows one frame at a time
 CacheAppend(s, q, pos) ==
   /\ Flags(pos, {<<q < Get(cnt, "continuity:" \o s, 0), "CacheNeverAheadOfTruth">>})
   /\ cached' = Put(cached, s, q + 1)
-  /\ UNCHANGED <<cnt, msgs, run, sess, job, task, creq, recd>>
+  /\ UNCHANGED <<cnt, msgs, run, sess, job, task, creq, recd, execs>>
 
 \* an emitter put frame <<s, q>> into its late-join buffer / handed it to the live channel
-Recorded(s, q, pos) == /\ recd' = recd \cup {<<s, q>>} /\ UNCHANGED <<cnt, msgs, run, sess, job, task, creq, cached, bad>>
+Recorded(s, q, pos) == /\ recd' = recd \cup {<<s, q>>} /\ UNCHANGED <<cnt, msgs, run, sess, job, task, creq, cached, execs, bad>>
 Published(s, q, pos) == /\ Flags(pos, {<<<<s, q>> \in recd, "RecordedBeforePublished">>})
-                        /\ UNCHANGED <<cnt, msgs, run, sess, job, task, creq, cached, recd>>
+                        /\ UNCHANGED <<cnt, msgs, run, sess, job, task, creq, cached, recd, execs>>
 
 \* ================================================================== DESIGN half
 VARIABLES pc,      \* actor -> program counter
           holder,  \* who holds the workspace permit ("" = free)
-          execing, \* actors inside a mutating execution
           owed,    \* sequence of runs whose mutation finished, in mutation order
           fxlog    \* sequence of runs whose side-effects frame reached the log
-dvars == <<pc, holder, execing, owed, fxlog>>
+dvars == <<pc, holder, owed, fxlog>>
 vars == <<mvars, dvars>>
 
 Actors == Runs \cup Jobs \cup Tasks
 Th(a) == ThreadOf[a]
-F(sk, s, t, r, m, j, st) == [sk |-> sk, s |-> s, seq |-> Get(cnt, sk \o ":" \o s, 0), t |-> t, r |-> r, m |-> m, j |-> j, st |-> st]
+F(sk, s, t, r, m, j, st) == [sk |-> sk, s |-> s, seq |-> Get(cnt, sk \o ":" \o s, 0), t |-> t, r |-> r, m |-> m, j |-> j, st |-> st, tid |-> IF t = "fx" THEN r ELSE ""]
 Go(a, from, to) == pc[a] = from /\ pc' = [pc EXCEPT ![a] = to]
-Keep == UNCHANGED <<holder, execing, owed, fxlog>>
+Keep == UNCHANGED <<holder, owed, fxlog>>
 ThreadOpen(t) == Get(cnt, "continuity:" \o t, 0) > 0
 
-Init == /\ MInit /\ pc = [a \in Actors |-> "idle"] /\ holder = "" /\ execing = {} /\ owed = <<>> /\ fxlog = <<>>
+Init == /\ MInit /\ pc = [a \in Actors |-> "idle"] /\ holder = "" /\ owed = <<>> /\ fxlog = <<>>
 
 \* a thread is created by whoever needs it first (ensure)
 CreateThread(a) == /\ pc[a] = "idle" /\ ~ThreadOpen(Th(a))
@@ -158,22 +164,23 @@ Compile(r)   == Go(r, "selected", "compiled") /\ Frame(F("continuity", Th(r), "c
 \* one mutating tool call: wait for the permit, execute, log tool_ended, append the side-effects
 \* frame on the thread, and only then give the permit back
 Acquire(r)   == /\ Go(r, "compiled", "locked") /\ holder = "" /\ holder' = r
-                /\ Frame(F("session", r, "sf", "", "", "", ""), 0) /\ UNCHANGED <<execing, owed, fxlog>>
-ExecBegin(r) == /\ Go(r, "locked", "exec") /\ execing' = execing \cup {r} /\ UNCHANGED <<mvars, holder, owed, fxlog>>
-ExecEnd(r)   == /\ Go(r, "exec", "ran") /\ execing' = execing \ {r} /\ owed' = Append(owed, r)
-                /\ Frame(F("session", r, "sf", "", "", "", ""), 0) /\ UNCHANGED <<holder, fxlog>>
+                /\ Frame(F("session", r, "sf", "", "", "", ""), 0) /\ UNCHANGED <<owed, fxlog>>
+ExecBegin(r) == /\ Go(r, "locked", "exec") /\ XBegin(r, 0) /\ UNCHANGED <<holder, owed, fxlog>>
+ExecEnd(r)   == /\ Go(r, "exec", "ran0") /\ XEnd(r, 0) /\ owed' = Append(owed, r) /\ UNCHANGED <<holder, fxlog>>
+ToolEnded(r) == /\ Go(r, "ran0", "ran") /\ Frame(F("session", r, "sf", "", "", "", ""), 0) /\ Keep
 Effects(r)   == /\ Go(r, "ran", "fx") /\ fxlog' = Append(fxlog, r)
-                /\ Frame(F("continuity", Th(r), "fx", r, "", "", ""), 0) /\ UNCHANGED <<holder, execing, owed>>
-Release(r)   == /\ Go(r, "fx", "tooled") /\ holder = r /\ holder' = "" /\ UNCHANGED <<mvars, execing, owed, fxlog>>
+                /\ Frame(F("continuity", Th(r), "fx", r, "", "", ""), 0) /\ UNCHANGED <<holder, owed>>
+Release(r)   == /\ Go(r, "fx", "tooled") /\ holder = r /\ holder' = "" /\ UNCHANGED <<mvars, owed, fxlog>>
 \* deviations (each one is a seeded change some sub-agent really wrote; TLC must find a counterexample)
 EarlyRelease(r) == /\ Deviation = "release_before_effects_frame" /\ Go(r, "ran", "ran_free") /\ holder = r /\ holder' = ""
-                   /\ UNCHANGED <<mvars, execing, owed, fxlog>>
+                   /\ UNCHANGED <<mvars, owed, fxlog>>
 LateEffects(r)  == /\ Deviation = "release_before_effects_frame" /\ Go(r, "ran_free", "tooled") /\ fxlog' = Append(fxlog, r)
-                   /\ Frame(F("continuity", Th(r), "fx", r, "", "", ""), 0) /\ UNCHANGED <<holder, execing, owed>>
+                   /\ Frame(F("continuity", Th(r), "fx", r, "", "", ""), 0) /\ UNCHANGED <<holder, owed>>
 EndBeforeSession(r) == /\ Deviation = "run_ended_before_session_ended" /\ pc[r] \in {"compiled", "tooled"} /\ pc' = [pc EXCEPT ![r] = "done"]
                        /\ Frame(F("continuity", Th(r), "re", r, M(r), "", ""), 0) /\ Keep
 UnlockedTask(k) == /\ Deviation = "cancelled_queued_task_runs_unlocked" /\ Go(k, "queued", "running") /\ k \in creq
-                   /\ execing' = execing \cup {k} /\ Frame(F("task", k, "tstatus", "", "", "", "running"), 0) /\ UNCHANGED <<holder, owed, fxlog>>
+                   /\ Frame(F("task", k, "tstatus", "", "", "", "running"), 0) /\ Keep
+UnlockedProc(k) == /\ Deviation = "cancelled_queued_task_runs_unlocked" /\ Go(k, "running", "proc") /\ holder # k /\ XBegin(k, 0) /\ Keep
 SessEnd(r)   == /\ pc[r] \in {"compiled", "tooled"} /\ pc' = [pc EXCEPT ![r] = "sessended"]
                 /\ Frame(F("session", r, "se", "", "", "", ""), 0) /\ Keep
 Cursor(r)    == Go(r, "sessended", "cursored") /\ Frame(F("continuity", Th(r), "cur", r, "", "", ""), 0) /\ Keep
@@ -189,39 +196,39 @@ JobEnd(j)   == /\ pc[j] \in {"spawned", "ckpt"} /\ pc' = [pc EXCEPT ![j] = "done
 \* ---- a background task: spawn frame, wait for the permit (a cancel may arrive while it waits),
 \* running, output, terminal status; the permit goes back after the terminal frame
 TSpawn(k)   == Go(k, "idle", "queued") /\ Frame(F("task", k, "tspawn", "", "", "", ""), 0) /\ Keep
-TAcquire(k) == /\ Go(k, "queued", "locked") /\ holder = "" /\ holder' = k /\ UNCHANGED <<mvars, execing, owed, fxlog>>
-TRunning(k) == /\ Go(k, "locked", "running") /\ execing' = execing \cup {k}
-               /\ Frame(F("task", k, "tstatus", "", "", "", "running"), 0) /\ UNCHANGED <<holder, owed, fxlog>>
-TOutput(k)  == /\ pc[k] = "running" /\ Get(cnt, "task:" \o k, 0) < 5 /\ Frame(F("task", k, "tout", "", "", "", ""), 0) /\ UNCHANGED dvars
-TCancelReq(k) == /\ pc[k] \in {"queued", "running"} /\ k \notin creq
+TAcquire(k) == /\ Go(k, "queued", "locked") /\ holder = "" /\ holder' = k /\ UNCHANGED <<mvars, owed, fxlog>>
+TProc(k)    == /\ Go(k, "locked", "proc") /\ XBegin(k, 0) /\ Keep
+TRunning(k) == /\ Go(k, "proc", "running") /\ Frame(F("task", k, "tstatus", "", "", "", "running"), 0) /\ Keep
+TOutput(k)  == /\ pc[k] \in {"running", "exited"} /\ Get(cnt, "task:" \o k, 0) < 5 /\ Frame(F("task", k, "tout", "", "", "", ""), 0) /\ UNCHANGED dvars
+TCancelReq(k) == /\ pc[k] \in {"queued", "running", "exited"} /\ k \notin creq
                  /\ Frame(F("task", k, "tcancelreq", "", "", "", ""), 0) /\ UNCHANGED dvars
-TExit(k)    == /\ Go(k, "running", IF holder = k THEN "ended" ELSE "done") /\ execing' = execing \ {k}
-               /\ Frame(F("task", k, "tstatus", "", "", "", IF k \in creq THEN "cancelled" ELSE "exited"), 0)
-               /\ UNCHANGED <<holder, owed, fxlog>>
+TProcExit(k) == /\ pc[k] \in {"running", "proc"} /\ k \in execs /\ pc' = [pc EXCEPT ![k] = "exited"] /\ XEnd(k, 0) /\ Keep
+TExit(k)    == /\ Go(k, "exited", IF holder = k THEN "ended" ELSE "done")
+               /\ Frame(F("task", k, "tstatus", "", "", "", IF k \in creq THEN "cancelled" ELSE "exited"), 0) /\ Keep
 TCancelledQueued(k) == /\ Go(k, "queued", "done") /\ k \in creq
                        /\ Frame(F("task", k, "tstatus", "", "", "", "cancelled"), 0) /\ Keep
-TRelease(k) == /\ Go(k, "ended", "done") /\ holder = k /\ holder' = "" /\ UNCHANGED <<mvars, execing, owed, fxlog>>
+TRelease(k) == /\ Go(k, "ended", "done") /\ holder = k /\ holder' = "" /\ UNCHANGED <<mvars, owed, fxlog>>
 
 Next == \/ \E a \in Actors : CreateThread(a)
         \/ \E r \in Runs : \/ Post(r) \/ Spawn(r) \/ SessStart(r) \/ Select(r) \/ Compile(r) \/ Acquire(r) \/ ExecBegin(r)
-                           \/ ExecEnd(r) \/ Effects(r) \/ Release(r) \/ SessEnd(r) \/ Cursor(r) \/ RunEnd(r)
+                           \/ ExecEnd(r) \/ ToolEnded(r) \/ Effects(r) \/ Release(r) \/ SessEnd(r) \/ Cursor(r) \/ RunEnd(r)
         \/ \E r \in Runs : EarlyRelease(r) \/ LateEffects(r) \/ EndBeforeSession(r)
-        \/ \E k \in Tasks : UnlockedTask(k)
+        \/ \E k \in Tasks : UnlockedTask(k) \/ UnlockedProc(k)
         \/ \E j \in Jobs : JobSpawn(j) \/ JobCkpt(j) \/ JobEnd(j)
-        \/ \E k \in Tasks : TSpawn(k) \/ TAcquire(k) \/ TRunning(k) \/ TOutput(k) \/ TCancelReq(k) \/ TExit(k) \/ TCancelledQueued(k) \/ TRelease(k)
+        \/ \E k \in Tasks : TSpawn(k) \/ TAcquire(k) \/ TProc(k) \/ TRunning(k) \/ TOutput(k) \/ TCancelReq(k) \/ TProcExit(k) \/ TExit(k) \/ TCancelledQueued(k) \/ TRelease(k)
 Fair == /\ \A a \in Actors : WF_vars(CreateThread(a))
-        /\ \A r \in Runs : WF_vars(Post(r) \/ Spawn(r) \/ SessStart(r) \/ Select(r) \/ Compile(r) \/ ExecBegin(r) \/ ExecEnd(r) \/ Effects(r) \/ Release(r) \/ SessEnd(r) \/ RunEnd(r))
+        /\ \A r \in Runs : WF_vars(Post(r) \/ Spawn(r) \/ SessStart(r) \/ Select(r) \/ Compile(r) \/ ExecBegin(r) \/ ExecEnd(r) \/ ToolEnded(r) \/ Effects(r) \/ Release(r) \/ SessEnd(r) \/ RunEnd(r))
                            /\ SF_vars(Acquire(r))
         \* fairness is asked only of steps the system takes by itself; posting more work
         \* (JobSpawn) and cancelling (TCancelReq) are the environment's choice
         /\ \A j \in Jobs : WF_vars(JobEnd(j))
-        /\ \A k \in Tasks : WF_vars(TSpawn(k) \/ TRunning(k) \/ TExit(k) \/ TRelease(k) \/ TCancelledQueued(k)) /\ SF_vars(TAcquire(k))
+        /\ \A k \in Tasks : WF_vars(TSpawn(k) \/ TProc(k) \/ TRunning(k) \/ TProcExit(k) \/ TExit(k) \/ TRelease(k) \/ TCancelledQueued(k)) /\ SF_vars(TAcquire(k))
 Spec == Init /\ [][Next]_vars /\ Fair
 
 \* ------------------------------------------------------------------ what TLC checks on the design
 MonitorAccepts == bad = {}
-NoOverlap == Cardinality(execing) <= 1
-HolderExecutes == execing \subseteq {holder}
+NoOverlap == Cardinality(execs) <= 1
+HolderExecutes == execs \subseteq {holder}
 \* side-effects frames reach the thread in the order the mutations finished
 IsPrefix(a, b) == Len(a) <= Len(b) /\ \A i \in 1..Len(a) : a[i] = b[i]
 FrameOrder == IsPrefix(fxlog, owed)
